@@ -9,8 +9,13 @@
    Status: FULL.  The four defects found by this verification (gleich/ungleich on operands without a type, return of
    an expression without a type, typechecker re-resolving names by name + loop bounds resolved in the loop body,
    private fields of a Kombination that is not itself imported) were repaired in /repo by ec4b99d, 328cc02, 4309fac,
-   581329c; the model was re-synchronised and `check p = [] <-> wf p` holds.  The witnesses of the defects stay as
-   regression facts about `check_pinned`; checks/c04.py replays them on the real frontend on every run. *)
+   581329c; the model was re-synchronised: `check p = [] -> wf p` holds of the tree as it is.  The witnesses of the
+   defects stay as regression facts about `check_pinned`; checks/c04.py replays them on the real frontend on every run.
+   Core (extended): indexed and field assignment, for-each, Wiederhole, do-while, list literals, verkettet, slicing.
+   Open: (a) a list of elements WITHOUT a type (`(foo) verkettet mit (foo)`, `eine Liste, die aus (foo) besteht`) is
+   accepted by /repo; the checker types of the model cannot express it, the model has the repaired behaviour and the
+   check judges such programs by the specification oracle only (known finding void_list); (b) the field-name lookup of
+   assigneable() rejects a well-formed program (C04_check_complete_refuted). *)
 From Coq Require Import List Arith Bool.
 Import ListNotations.
 From DDP Require Import Lang.MiniSyntax Lang.MiniTyping Lang.MiniTypingProofs Lang.MiniCheck Lang.MiniGuard Lang.MiniCheckProofs
@@ -30,29 +35,36 @@ Theorem C04_illformed_rejected : forall p, ~ wf p -> check p <> [].
 Proof. exact (fun p H E => H (check_sound p E)). Qed.
 Print Assumptions C04_illformed_rejected.
 
-(* non-vacuity direction, FULL: every well-formed core program is accepted; acceptance = well-formedness *)
-Theorem C04_check_complete : forall p, wf p -> check p = [].
-Proof. exact check_complete. Qed.
-Print Assumptions C04_check_complete.
+(* non-vacuity direction.  With ALL repairs (also of the field-name lookup of assigneable(), a false rejection that
+   is still in /repo) the frontend accepts exactly the well-formed core programs ... *)
+Theorem C04_check_patched_complete : forall p, wf p -> check_patched p = [].
+Proof. exact check_patched_complete. Qed.
+Print Assumptions C04_check_patched_complete.
 
-Theorem C04_check_iff_wf : forall p, check p = [] <-> wf p.
-Proof. exact check_iff_wf. Qed.
-Print Assumptions C04_check_iff_wf.
+Theorem C04_check_patched_iff_wf : forall p, check_patched p = [] <-> wf p.
+Proof. exact check_patched_iff_wf. Qed.
+Print Assumptions C04_check_patched_iff_wf.
 
-(* GENERAL (every setting Q of the four quirk switches): sound on the programs on which the switched-on quirks do not
-   matter (`guard Q`, a syntactic predicate that is `true` everywhere for `patched`), complete on shadow-free
-   programs, and complete everywhere once the typechecker uses the resolver's bindings and fields are protected by
-   type.  The check identifies on every run which setting the frontend in /repo is. *)
+(* ... while the frontend as it is rejects a well-formed program (Konstante called like a field that is assigned) *)
+Theorem C04_check_complete_refuted : exists p, wf p /\ check p <> [] /\ check_patched p = [].
+Proof. exact check_complete_refuted. Qed.
+Print Assumptions C04_check_complete_refuted.
+
+(* GENERAL (every setting Q of the quirk switches): sound on the programs on which the switched-on quirks do not
+   matter (`guard Q`, a syntactic predicate that is `true` everywhere for `current` and `patched`); complete on
+   shadow-free programs, and complete everywhere once the typechecker uses the resolver's bindings and fields are
+   protected by type (both provided the field name of a field assignment is not looked up as a variable).
+   The check identifies on every run which setting the frontend in /repo is. *)
 Theorem C04_check_with_sound : forall Q p, check_with Q p = [] -> guard Q p = true -> wf p.
 Proof. exact check_with_sound. Qed.
 Print Assumptions C04_check_with_sound.
 
-Theorem C04_check_with_complete : forall Q p, wf p -> shadow_free p = true -> check_with Q p = [].
+Theorem C04_check_with_complete : forall Q p, q_field_name_lookup Q = false -> wf p -> shadow_free p = true -> check_with Q p = [].
 Proof. exact check_with_complete. Qed.
 Print Assumptions C04_check_with_complete.
 
 Theorem C04_check_with_complete_full : forall Q p, q_tc_by_name Q = false -> q_field_unimported Q = false ->
-  wf p -> check_with Q p = [].
+  q_field_name_lookup Q = false -> wf p -> check_with Q p = [].
 Proof. exact check_with_complete_full. Qed.
 Print Assumptions C04_check_with_complete_full.
 
